@@ -44,7 +44,7 @@ var modCounter int64
 // HangBudget is the no-progress budget after which an in-process execution
 // is declared hung. It is deliberately generous: ordinary cases take well
 // under 10 ms.
-var HangBudget = 60 * time.Second
+var HangBudget = 120 * time.Second
 
 // RunOpts tunes Run.
 type RunOpts struct {
